@@ -103,6 +103,8 @@ EvRet == /\ IsEv("ret") /\ E.w \in Calls /\ pc[E.w] = "done"
          /\ res[E.w].kind = E.kind /\ res[E.w].why = E.why /\ res[E.w].blame = E.blame
          /\ res[E.w].pay = PairsFn(E.pay)
          /\ Adv /\ UNCHANGED <<vars, pend>>
+\* protocol runners: all parties' outputs agree (evaluated by the driver from the runners' results)
+EvOutputs == IsEv("outputs") /\ E.agree /\ Adv /\ UNCHANGED <<vars, pend>>
 \* replay only: the goroutine of call w did not get past the select although the schedule released it
 EvStuck == /\ IsEv("stuck") /\ E.at = "wt" /\ E.w \in Calls /\ pc[E.w] = "wt"
            /\ ~(boxes[Cid(E.w)].token \/ cancelled[E.w] \/ fatal # "none")
@@ -122,7 +124,7 @@ Skip == /\ run >= 1 /\ l <= N /\ Trace[l].a \notin {"reset", "hdr"} /\ l <= Hdr.
 
 TraceInit == Init /\ l = 2 /\ run = 0 /\ pend = {} /\ TLCSet(1, [r \in 1..NRuns |-> 0])
 TraceNext == \/ EvReset \/ EvEnd \/ EvSend \/ EvRecv \/ EvRdErr \/ EvCancel \/ EvDep \/ EvFail \/ EvClose
-             \/ EvEnter \/ EvScan \/ EvCl \/ EvRet \/ EvStuck
+             \/ EvEnter \/ EvScan \/ EvCl \/ EvRet \/ EvStuck \/ EvOutputs
              \/ (\E w \in Calls : IntPark(w) \/ IntWake(w)) \/ IntStart \/ IntCancel \/ Skip
 TraceSpec == TraceInit /\ [][TraceNext]_tvars
 
